@@ -239,6 +239,11 @@ def r3_best_batch(ctx: Context) -> None:
     if inner is None or not isinstance(inner.target, ast.Name) or not isinstance(outer.target, ast.Name):
         raise AnalysisError(f"{sb.loc(sb.node)}: best-batch no longer has the row loop / shocked-coordinate loop structure; cannot decide R3")
     ix, row = inner.target.id, outer.target.id
+    # the shocked-coordinate loop must iterate a draw that can be read in place: a repository helper (e.g. a generator of shock records) that could not be
+    # inlined hides which coordinates, signs and sizes are drawn - outside this rule's vocabulary
+    for c_ in ast.walk(inner.iter):
+        if isinstance(c_, ast.Call) and any(isinstance(t, FuncInfo) for t in prog.resolve_call(sb, c_)):
+            raise AnalysisError(f"{sb.loc(inner)}: the shocked coordinates come from the repository helper `{src(c_.func)}`, which could not be read in place; cannot decide R3")
     # which coordinates are shocked: choice(dims, 1 + BetaBin(dims - 1), replace=False) -> between 1 and dims distinct coordinates
     it = n.rat(inner.iter)
     forms = set()
